@@ -68,6 +68,9 @@ def call_method(ex, st, recv, name, args, kwargs, node):
     if isinstance(recv, VList):
         yield from list_method(ex, st, recv, name, args, kwargs, node)
         return
+    if isinstance(recv, VObj) and recv.cls == "Match" and name in ("start", "group") and not args:
+        yield recv.fields["_" + name], st
+        return
     if isinstance(recv, VDict):
         if name == "get":
             k = args[0]
@@ -375,6 +378,9 @@ def m_isdigit(ex, st, s, args, kwargs, node):
     if s.conc is not None:
         yield VBool(s.conc.isdigit()), st
         return
+    if z3.is_true(z3.simplify(s.hi - s.lo == 1)):
+        yield VBool(V.is_digit_code(s.a[s.lo])), st
+        return
     p = V.all_in(st.ctx, s, V.is_digit_code, "isdigit")
     yield VBool(z3.And(s.len() > 0, p)), st
 
@@ -417,6 +423,16 @@ def m_encode(ex, st, s, args, kwargs, node):
             yield lit(s.conc.encode("utf8", errors="ignore"), "bytes"), st
             return
         yield opaque_str(st.ctx, "utf8_ignore", s, kind="bytes"), st
+        return
+    if enc == "idna":
+        # stdlib IDNA 2003 codec: opaque function of the text; result is ASCII (library contract)
+        ok = opaque_bool(st.ctx, "idna2003_ok", s)
+        for kind, s2 in ex.raise_or_oblige(st, UnicodeError, ok, "idna-2003-encodable", node):
+            if kind == "ok":
+                r = idna_result(ex, s2.ctx, "idna2003", s, lower=False)
+                yield VStr(r.a, r.lo, r.hi, kind="bytes"), s2
+            else:
+                yield _raised()(VExc(UnicodeError)), s2
         return
     if enc == "ascii":
         ok = V.is_ascii(st.ctx, s)
@@ -882,7 +898,174 @@ def p_segs_step(ex, st, args, kwargs, node):
                       z3.And(e != 1, e != 2, pushed))), st
 
 
+
+# ------------------------------------------------------------------ host canonicalisation (C16)
+
+REGNAME_CODES = sorted(ord(c) for c in "abcdefghijklmnopqrstuvwxyz0123456789-._~!$&'()*+,;=")
+HEXL_CODES = sorted(ord(c) for c in "0123456789abcdef")
+
+
+def regname_bad_at(ctx, s):
+    """Int term: first index of s that is not reg-name text (lower case), -1 if none; the same
+    term for the same view (so the regular expression in the code and the specification's
+    primitive denote one function -- contracts/finite_host.py checks the real pattern against
+    this definition)"""
+    from contracts import prims
+    if s.conc is not None:
+        return V.iv(prims.regname_bad_at(s.conc))
+    key = ("regname_bad_at",) + _skey(s)
+    m = _memo(ctx)
+    if key in m:
+        return m[key]
+    r = V.fresh_int("rnb")
+    A, lo, hi = s.a, s.lo, s.hi
+
+    def ok(k):
+        return z3.If(A[k] == 37,
+                     z3.And(k + 2 < hi, V.in_set(A[k + 1], HEXL_CODES), V.in_set(A[k + 2], HEXL_CODES)),
+                     V.in_set(A[k], REGNAME_CODES))
+    ctx.add(z3.And(r >= -1, r < hi - lo))
+    ctx.addq("regname-ok-before", A, lambda k: z3.Implies(z3.And(lo <= k, k < z3.If(r < 0, hi, lo + r)), ok(k)))
+    ctx.add(z3.Implies(r >= 0, z3.Not(ok(lo + r))))
+    ctx.bound(lo, hi - 1, lo + r)
+    m[key] = r
+    return r
+
+
+def p_regname_bad_at(ex, st, args, kwargs, node):
+    yield VInt(regname_bad_at(st.ctx, args[0])), st
+
+
+def pattern_search(ex, st, pattern, subject, node):
+    """<compiled pattern>.search(s) for the one pattern shape that has a model: the reg-name
+    screen.  The result is None or a match object with start() and group()."""
+    from contracts import finite_host
+    if not finite_host.is_regname_screen(pattern):
+        raise Unsupported(f"regex search {pattern.pattern!r} has no model")
+    ex.assumed_contracts.add("re: Pattern.search of the reg-name screen == first index outside the reg-name grammar "
+                             "(parse tree + exhaustive window check in contracts/finite_host.py)")
+    r = regname_bad_at(st.ctx, subject)
+    rt = V.name_term(st.ctx, r, "rs") if not z3.is_int_value(r) else r
+    grp = V.intern_view(st.ctx, VStr(subject.a, subject.lo + rt, subject.lo + rt + 1))
+    m = VObj("Match", {"_start": VInt(rt), "_group": grp}, fresh=False)
+    c = z3.simplify(rt < 0)
+    if z3.is_true(c):
+        return NONE
+    if z3.is_false(c):
+        return m
+    return V.VOpt(c, m)
+
+
+def p_is_udigit(ex, st, args, kwargs, node):
+    s = args[0]
+    if s.conc is not None:
+        yield VBool(s.conc.isdigit()), st
+        return
+    yield VBool(z3.And(s.len() == 1, V.is_digit_code(s.a[s.lo]))), st
+
+
+def p_is_lower_ascii(ex, st, args, kwargs, node):
+    s = args[0]
+    yield VBool(V.all_in(st.ctx, s, lambda t: z3.And(t < 128, z3.Not(z3.And(t >= 65, t <= 90))), "lowerascii")), st
+
+
+IP_CODES = sorted(ord(c) for c in "0123456789abcdef:.")
+
+
+def ip_symbols(ex, ctx, s):
+    """ipaddress.ip_address(s): (ok, is_v6, compressed) -- opaque functions of the text with the
+    assumed library contract: compressed is non-empty text over [0-9a-f:.] and has a colon
+    exactly for version 6"""
+    ok = opaque_bool(ctx, "ip_ok", s)
+    v6 = opaque_bool(ctx, "ip_v6", s)
+    key = ("ipc",) + _skey(s)
+    m = _memo(ctx)
+    if key not in m:
+        c = V.fresh_str(ctx, "ipc")
+        A, lo, hi = c.a, c.lo, c.hi
+        ctx.add(c.len() > 0)
+        ctx.addq("ip-alphabet", A, lambda k: z3.Implies(z3.And(lo <= k, k < hi), V.in_set(A[k], IP_CODES)))
+        sk = V.fresh_int("ipk")
+        ctx.add(z3.Implies(v6, z3.And(lo <= sk, sk < hi, A[sk] == 58)))
+        ctx.addq("ip-v4-no-colon", A, lambda k: z3.Implies(z3.And(z3.Not(v6), lo <= k, k < hi), A[k] != 58))
+        ctx.bound(lo, hi - 1, sk)
+        m[key] = c
+        ex.assumed_contracts.add("ipaddress: ip_address(s).compressed is non-empty text over [0-9a-f:.] that has a ':' "
+                                 "exactly when version == 6; version is 4 or 6; ValueError otherwise")
+    return ok, v6, m[key]
+
+
+def ip_address_prim(ex, st, args, kwargs, node):
+    s = args[0]
+    ok, v6, c = ip_symbols(ex, st.ctx, s)
+    for kind, s2 in ex.raise_or_oblige(st, ValueError, ok, "ip-address-parses", node):
+        if kind == "ok":
+            yield VObj("IPAddr", {"compressed": c, "version": VInt(z3.If(v6, V.iv(6), V.iv(4)))}, fresh=False), s2
+        else:
+            yield _raised()(VExc(ValueError)), s2
+
+
+def p_ip_ok(ex, st, args, kwargs, node):
+    yield VBool(ip_symbols(ex, st.ctx, args[0])[0]), st
+
+
+def p_ip_version(ex, st, args, kwargs, node):
+    yield VInt(z3.If(ip_symbols(ex, st.ctx, args[0])[1], V.iv(6), V.iv(4))), st
+
+
+def p_ip_compressed(ex, st, args, kwargs, node):
+    yield ip_symbols(ex, st.ctx, args[0])[2], st
+
+
+def idna_result(ex, ctx, name, s, lower):
+    key = ("idna", name) + _skey(s)
+    m = _memo(ctx)
+    if key not in m:
+        r = V.fresh_str(ctx, name)
+        A, lo, hi = r.a, r.lo, r.hi
+        ctx.add(z3.Implies(s.len() > 0, r.len() > 0))     # library contract: empty labels are an error
+        if lower:
+            ctx.addq(name + "-lower-ascii", A, lambda k: z3.Implies(z3.And(lo <= k, k < hi),
+                                                                    z3.And(A[k] < 128, z3.Not(z3.And(A[k] >= 65, A[k] <= 90)))))
+            ex.assumed_contracts.add("idna: idna.encode(s, uts46=True) returns non-empty lower-case ASCII bytes or raises idna.IDNAError (a UnicodeError)")
+        else:
+            ctx.addq(name + "-ascii", A, lambda k: z3.Implies(z3.And(lo <= k, k < hi), A[k] < 128))
+            ex.assumed_contracts.add("stdlib idna codec: str.encode('idna') of non-empty text returns non-empty ASCII bytes or raises UnicodeError")
+        m[key] = r
+    return m[key]
+
+
+def idna_encode_prim(ex, st, args, kwargs, node):
+    s = args[0]
+    ok = opaque_bool(st.ctx, "idna2008_ok", s)
+    for kind, s2 in ex.raise_or_oblige(st, UnicodeError, ok, "idna-2008-encodable", node):
+        if kind == "ok":
+            r = idna_result(ex, s2.ctx, "idna2008", s, lower=True)
+            yield VStr(r.a, r.lo, r.hi, kind="bytes"), s2
+        else:
+            yield _raised()(VExc(UnicodeError)), s2
+
+
+def p_idna2008_ok(ex, st, args, kwargs, node):
+    yield VBool(opaque_bool(st.ctx, "idna2008_ok", args[0])), st
+
+
+def p_idna2003_ok(ex, st, args, kwargs, node):
+    yield VBool(opaque_bool(st.ctx, "idna2003_ok", args[0])), st
+
+
+def p_idna2008(ex, st, args, kwargs, node):
+    yield idna_result(ex, st.ctx, "idna2008", args[0], lower=True), st
+
+
+def p_idna2003(ex, st, args, kwargs, node):
+    yield idna_result(ex, st.ctx, "idna2003", args[0], lower=False), st
+
+
 SPEC_PRIMS = {
+    "regname_bad_at": p_regname_bad_at, "is_udigit": p_is_udigit, "is_lower_ascii": p_is_lower_ascii,
+    "ip_ok": p_ip_ok, "ip_version": p_ip_version, "ip_compressed": p_ip_compressed,
+    "idna2008_ok": p_idna2008_ok, "idna2003_ok": p_idna2003_ok, "idna2008": p_idna2008, "idna2003": p_idna2003,
     "segs_step": p_segs_step,
     "segs_no_dots": p_segs_no_dots, "segs_no_dots_upto": p_segs_no_dots_upto, "segs_prefix_equal": p_segs_prefix_equal,
     "hash_parts": p_hash_parts,
@@ -951,6 +1134,13 @@ def install(ex):
     add(builtins.chr, "chr", b_chr)
     add(re.match, "re.match", re_match)
     add(unicodedata.normalize, "unicodedata.normalize", ud_normalize)
+    try:
+        import ipaddress
+        import idna
+        add(ipaddress.ip_address, "ipaddress.ip_address", ip_address_prim)
+        add(idna.encode, "idna.encode", idna_encode_prim)
+    except ImportError:
+        pass
     ex.assumed_contracts = set()
     try:
         import yarl._quoters as _q
